@@ -547,7 +547,7 @@ def run(cfg):
         return t
 
     total = {}
-    for part in runner.pmap(worker, units, cfg, chunk=4):
+    for part in runner.pmap(worker, units, cfg, chunk=4, pin=True):
         runner.merge_counts(total, part)
     rep.extend_violations(total.get('violations', []))
     outcomes = total.get('outcomes', {})
